@@ -1,6 +1,6 @@
 ----------------------------- MODULE Isa6502_Gen -----------------------------
 EXTENDS Isa6502
-CONSTANTS Cpu, K, Salt
+CONSTANTS Cpu, K, Salt, Step
 VARIABLES form, ops, pc
 INSTANCE IsaGen
 ASSUME TableSane
